@@ -933,7 +933,18 @@ pub fn generate_r(stream: &str, seed: u64, n: usize, emit: &mut dyn FnMut(String
 		};
 		let Ok(schema) = build::to_schema_mut(&raw).freeze() else { continue };
 		let codec = match stream {
-			"ocfr-null" | "ocfr-damage" => "null",
+			// (damaged input is only modelled for the null codec: the compressed ones are judged on
+			// the real code by `ocfd`)
+			"ocfr-null" | "ocfr-damage" | "ocfr-skipd" => "null",
+			// (null twice as often: the slice door reads its blocks in place)
+			"ocfr-skip" => {
+				files += 1;
+				if files % 2 == 0 {
+					"null"
+				} else {
+					CODECS[files % CODECS.len()]
+				}
+			}
 			"ocfr-big" => CODECS[produced % CODECS.len()],
 			// a damaged file gives a dozen cases: take the codecs in turn, so that a short run
 			// still meets every one of them
@@ -949,6 +960,14 @@ pub fn generate_r(stream: &str, seed: u64, n: usize, emit: &mut dyn FnMut(String
 		let mut config = serde_avro_fast::ser::SerializerConfig::new(&schema);
 		let mut ok = true;
 		for _ in 0..k {
+			if stream == "ocfr-skip" || stream == "ocfr-skipd" {
+				// every legal layout of the datum: blocks with and without byte sizes (which this
+				// crate's serializer never writes, and which let an ignoring target jump)
+				let mut b = vec![];
+				DatumGen { rng: &mut rng, schema: &raw, fancy_layout: true, nonminimal: 0.0 }.gen(0, 0, &mut b);
+				datums.push(b);
+				continue;
+			}
 			if long_arrays {
 				let n = *[999usize, 1000, 1001, 2500].choose(&mut rng).unwrap();
 				let v = SV::Seq(Some(n), (0..n).map(|k| SV::Int(IntTy::I32, crate::proto::BigI::Pos((k % 100) as u128))).collect());
@@ -987,7 +1006,7 @@ pub fn generate_r(stream: &str, seed: u64, n: usize, emit: &mut dyn FnMut(String
 			continue;
 		}
 		let sync: Vec<u8> = (0..16).map(|_| rng.gen()).collect();
-		let file = if rng.gen_bool(0.5) {
+		let file = if stream != "ocfr-skip" && stream != "ocfr-skipd" && rng.gen_bool(0.5) {
 			match crate_file(&mut rng, codec, &schema, &values, &sync) {
 				Some(f) => f,
 				None => {
@@ -1001,9 +1020,17 @@ pub fn generate_r(stream: &str, seed: u64, n: usize, emit: &mut dyn FnMut(String
 		} else {
 			independent_file(&mut rng, codec, schema.json(), &datums, &sync)
 		};
-		let hint = if rng.gen_bool(0.7) { Hint::Any } else { shape_hint(&mut rng, &raw, 0, 0, 0.0) };
+		let hint = if stream == "ocfr-skip" || stream == "ocfr-skipd" {
+			// a target that ignores parts of each object (a struct lacking fields, an ignored map
+			// value, a unit variant for a union branch)
+			crate::gen::skip_hint(&mut rng, &raw, 0, 0)
+		} else if rng.gen_bool(0.7) {
+			Hint::Any
+		} else {
+			shape_hint(&mut rng, &raw, 0, 0, 0.0)
+		};
 		let variants: Vec<(String, Vec<u8>)> = match stream {
-			"ocfr-damage" | "ocfd" => {
+			"ocfr-damage" | "ocfd" | "ocfr-skipd" => {
 				let mut v = vec![];
 				// every truncation offset would be thorough; sample offsets, always include the
 				// block boundaries' neighbourhoods
